@@ -289,7 +289,7 @@ def gen_lime_index(rng, tier):
     nb = rng.randint(2, 7)
     return dict(stream="lime_index", kind=kind, shape=shape, mapping=mapping, coef=[float(v) for v in coef],
                 nb_samples=nb, bs=rng.choice([None, 1, 2, nb, nb + 1]), method=rng.choice(["lime", "kshap"]),
-                tfseed=rng.randrange(10 ** 6))
+                tfseed=rng.randrange(10 ** 6), default_ref=rng.random() < 0.5)
 
 
 def gen_rise(rng, tier):
@@ -525,6 +525,9 @@ def run_lime_index(case):
     chan = shape[2] if len(shape) == 3 else 1
     kw = dict(batch_size=case["bs"], map_to_interpret_space=lambda inp: mapping, nb_samples=case["nb_samples"],
               ref_value=np.zeros(chan, np.float32))
+    if case.get("default_ref") and (len(shape) != 3 or chan == 1):
+        # the documented default reference of single-channel images, time series and tabular data is 0 as well
+        kw["ref_value"] = None
     if case["method"] == "lime":
         expl = Lime(rec, interpretable_model=fit, **kw)
     else:
